@@ -18,7 +18,7 @@ RULE = ("Engine S histories on all store classes (priorities -2..2 with many tie
 ASSUMPTIONS = ["grant = event.triggered, polled after every API call and kernel event"]
 
 WEIGHTS = {"rp": 9, "rg": 9, "put": 5, "get": 5, "cp": 3, "cg": 3, "settle": 1, "adv": 4}
-CLASSES = gen_store.ALL_PLAIN + ["SlottedConveyor"]
+CLASSES = gen_store.ALL_PLAIN + ["SlottedConveyor", "SlottedBeltStore", "SlottedBeltStore"]
 
 
 def examples(tier):
@@ -56,7 +56,7 @@ def shrink_candidates(case):
 
 
 def has_prio(S):
-    return S.cls in ("ReservablePriorityReqStore", "ReservablePriorityReqFilterStore", "FleetStore")
+    return S.cls in ("ReservablePriorityReqStore", "ReservablePriorityReqFilterStore", "FleetStore", "SlottedBeltStore")
 
 
 class OrderOracle(Oracle):
